@@ -1667,6 +1667,16 @@ def run_simulator(t):
     any_ctx = any(not is_context_free(b) for b in t["bandits"])
     sim = Simulator(bandits, list(t["ds"]), list(t["rs"]), [list(r) for r in t["cx"]] if any_ctx else None,
                     test_size=t["test_size"], is_ordered=t["is_ordered"], batch_size=t["batch_size"], seed=t["seed"], is_quick=t["is_quick"])
+    if t.get("force_chunk"):
+        # exercise the chunked branches (normally taken only when the distance list would exceed 1 GB) on small data:
+        # the chunk size computed by _run_train_test_split is lowered from outside
+        import types
+        orig = sim._run_train_test_split
+        def lowered(self):
+            r = orig()
+            self._chunk_size = max(1, min(self._chunk_size, t["force_chunk"]))
+            return r
+        sim._run_train_test_split = types.MethodType(lowered, sim)
     sim.run()
     return sim, originals, any_ctx
 
@@ -1779,19 +1789,52 @@ def run_c16(t):
     return True, {}
 
 def gen_c16(rng, tier):
-    return gen_sim(rng, tier)
+    t = gen_sim(rng, tier)
+    if rng.random() < 0.2:
+        t["force_chunk"] = rng.choice([1, 2, 3, 5])
+    return t
 
 ALL_SIM_METRICS = ["cityblock", "chebyshev", "sqeuclidean", "euclidean", "seuclidean", "mahalanobis", "cosine", "canberra", "braycurtis"]
 
 def gen_c15(rng, tier):
+    if rng.random() < 0.25:
+        # chunked simulation (deterministic policies: chunking changes how many row seeds are drawn per call, which only
+        # deterministic policies are indifferent to)
+        t = gen_sim(rng, tier, metrics=ALL_SIM_METRICS, deterministic=True)
+        t["force_chunk"] = rng.choice([1, 2, 3, 5])
+        # an empty neighbourhood is answered by a draw from the row generator, and chunking changes the row seeds: Radius / LSH
+        # bandits become KNearest ones (never empty) in the chunked variant
+        for b in t["bandits"]:
+            if b["np"] is not None and b["np"][0] in ("radius", "lsh"):
+                b["np"] = ("knearest", rng.randint(1, 4), rng.choice(ALL_SIM_METRICS))
+        return t
     t = gen_sim(rng, tier, metrics=ALL_SIM_METRICS)
     return t
+
+def api_replay_completes(t):
+    """drives fresh copies of the bandits through the public protocol on an ordered split; False if the public API raises"""
+    try:
+        n = len(t["ds"]); ds = np.asarray(t["ds"]); rs = np.asarray(t["rs"], dtype=float); cx = np.asarray(t["cx"], dtype=float)
+        k = int(n * (1 - t["test_size"]))
+        for b in t["bandits"]:
+            m = MAB_build(t["arms"], b); cf = is_context_free(b)
+            m.fit(ds[:k], rs[:k], **({} if cf else {"contexts": cx[:k]}))
+            if cf: m.predict()
+            else: m.predict(cx[k:])
+        return True
+    except Exception:
+        return False
 
 def run_c15(t):
     try:
         sim, originals, any_ctx = run_simulator(t)
     except Exception as e:
-        return True, {"skipped": "simulator raised: %r" % e}
+        # a simulation of valid data that the public API handles must not raise
+        if api_replay_completes(t):
+            import traceback
+            return False, {"why": "the Simulator raised %s: %s where fit + predict through the public API complete" % (type(e).__name__, str(e)[:150]),
+                           "batch_size": t["batch_size"], "forced_chunk_size": t.get("force_chunk"), "trace": traceback.format_exc()[-600:]}
+        return True, {"skipped": "simulator raised: %r (so does the public API)" % e}
     ds = np.asarray(t["ds"]); rs = np.asarray(t["rs"], dtype=float); cx = np.asarray(t["cx"], dtype=float)
     ti = [int(i) for i in sim.test_indices]; n = len(ds)
     if t["is_ordered"]:
